@@ -354,7 +354,7 @@ PROPS['C20'] = {
     'not_covered': [
         'PROVED (Verus, verbatim bodies, overlay contracts contracts/*+c20.vc): parse_term computes the meaning of a text on its own as specified - trim, first arithmetic infix, else classify (some digit / some period / anything else) and make_term, '
         'with the two-character escape resolved (#meaning, #flags_inv; unit contexts_a); a list element is parse_term of its trimmed piece of the text between the brackets (parse_linked_list #elements_alone, #elements_inv), '
-        'and so is each operand of an infix (get_left_and_right #operands_alone, #operand_errors; unit contexts_b); an ARGUMENT that consists of simple characters (no sign, white space, bracket, quotation mark, comma, backslash) is the meaning of its text on its own - '
+        'and so is each operand of an infix (get_left_and_right #operands_alone, #operand_errors; unit contexts_b); an ARGUMENT that consists of simple characters (no sign, white space, bracket, quotation mark, comma, backslash), with blanks before and after them as in `f(a, b)`, is the meaning of its text on its own - '
         'the scan of parse_arguments keeps the text and classifies it as parse_term does (#simple_scan_inv, #simple_argument_as_alone; the infix fact #infix_is_a_sign is proved on check_arithmetic_infix in unit contexts_c)',
         'KNOWN FINDINGS (the property does NOT hold for arguments of complex terms, built-ins and queries): parse_arguments classifies the characters itself, drops backslashes and never looks for an infix; the two obligations that say '
         'this comes to the meaning of the piece on its own (#argument_not_infix, #argument_as_alone, at both calls of make_term) are not provable and are refuted by the inputs of c20_known_*; a fourth deviation (a quoted or escaped '
